@@ -716,13 +716,54 @@ var _ ssa.Value
 func canonLinearVal(t *Term) *Term {
 	if t.Name == "*" {
 		// only products by a constant of a sum are worth distributing
-		if _, ok := isConstInt(t.Args[1]); !ok || t.Args[0].Op != "bin" || (t.Args[0].Name != "+" && t.Args[0].Name != "-") {
+		if _, ok := isConstInt(t.Args[1]); !ok || !(t.Args[0].Op == "ind" || t.Args[0].Op == "bin" && (t.Args[0].Name == "+" || t.Args[0].Name == "-")) {
 			return nil
 		}
 	}
 	ln := newLinear()
 	ln.ring = true
 	ln.add(t, big.NewInt(1))
+	// a scaled counter c·ind<s>(X) (c ≠ ±1) is c·ind<s>(0) + c·X, so (i+1)·40 and i·40+40 agree;
+	// a unit counter absorbs the constant: ind<s>(X) + d = ind<s>(X+d)
+	for k, c := range ln.coef {
+		a := ln.atoms[k]
+		if c.Sign() == 0 || a.Op != "ind" || len(a.Args) != 1 || new(big.Int).Abs(c).Cmp(big.NewInt(1)) == 0 {
+			continue
+		}
+		if c0, ok := isConstInt(a.Args[0]); ok && c0.Sign() == 0 {
+			continue
+		}
+		if _, okS := parseStep(a.Name); !okS {
+			continue
+		}
+		coef := new(big.Int).Set(c)
+		delete(ln.coef, k)
+		delete(ln.atoms, k)
+		base := &Term{Op: "ind", Name: a.Name, V: a.V, Args: []*Term{mkConst(big.NewInt(0), nil)}}
+		ln.add(base, coef)
+		ln.add(a.Args[0], coef)
+	}
+	var indKey string
+	nAtoms := 0
+	for k, c := range ln.coef {
+		if c.Sign() != 0 {
+			nAtoms++
+			if ln.atoms[k].Op == "ind" && c.Cmp(big.NewInt(1)) == 0 {
+				indKey = k
+			}
+		}
+	}
+	if nAtoms == 1 && indKey != "" && ln.k.Sign() != 0 {
+		ind := ln.atoms[indKey]
+		if sh := canonIndShift(&Term{Op: "bin", Name: "+", V: t.V, Args: []*Term{ind, mkConst(ln.k, nil)}}); sh != nil {
+			return sh
+		}
+	}
+	return ln.build(t)
+}
+
+// build renders the linear form: positive atoms, negative atoms, constant; sorted.
+func (ln *linear) build(t *Term) *Term {
 	var pos, neg []string
 	for k, c := range ln.coef {
 		switch c.Sign() {
@@ -735,7 +776,7 @@ func canonLinearVal(t *Term) *Term {
 	sort.Strings(pos)
 	sort.Strings(neg)
 	if len(pos)+len(neg) == 0 {
-		return nil
+		return mkConst(ln.k, t.V)
 	}
 	scaled := func(key string) *Term {
 		a := ln.atoms[key]
